@@ -36,18 +36,18 @@ func isConsensusClass(tx *common.VersionedTransaction) bool {
 
 type c21Mon struct {
 	cluster.BaseMonitor
-	r          *crun
-	target     int
-	interleave int
-	mode       int // 0 none, 1 before marker write, 2 after marker write (+k), 3 right after snapshot write
-	k          int
-	pending    map[int]*common.Snapshot // node -> consensus snapshot durably written, marker may be outstanding
-	written    map[int]*common.Snapshot // node -> newest consensus snapshot durably written
-	armed      bool
-	crashed    bool
-	interleaved int
+	r               *crun
+	target          int
+	interleave      int
+	mode            int // 0 none, 1 before marker write, 2 after marker write (+k), 3 right after snapshot write
+	k               int
+	pending         map[int]*common.Snapshot // node -> consensus snapshot durably written, marker may be outstanding
+	written         map[int]*common.Snapshot // node -> newest consensus snapshot durably written
+	armed           bool
+	crashed         bool
+	interleaved     int
 	consensusWrites int
-	checks     int
+	checks          int
 }
 
 func (m *c21Mon) AfterStore(n *cluster.SNode, call *cluster.StoreCall) {
